@@ -72,7 +72,7 @@ EXTRA_POOL = {
     "Relations": [("a,\nb", "a, b"), ("a (>= 1.0),\nb | c", "a (>= 1.0), b | c"), ("a, b", "a, b"),
                   ("python3:any", "python3:any"), ("a (= 1) [!amd64]", "a (= 1) [!amd64]"),
                   ("a <!nocheck>", "a <!nocheck>"), ("${misc:Depends}", None), ("a (>> 1), b (<< 2)", "a (>> 1), b (<< 2)")],
-    "Version": [("1.0-1 ", None), ("2:1.0", "2:1.0")],
+    "Version": [("1.0-1 ", None), ("2:1.0", "2:1.0"), ("20230101120000", "20230101120000"), ("1.0-2147483648", "1.0-2147483648")],
     "Url": [("https://example.com/a b", "https://example.com/a%20b"), ("https://example.com/a%20b", "https://example.com/a%20b"),
             ("http://a.example/x", "http://a.example/x"), ("http://b.example/", "http://b.example/"),
             ("https://deb.debian.org/debian", "https://deb.debian.org/debian"), ("nope", None)],
@@ -97,6 +97,26 @@ def rust_lines(s):
     from .props.c16 import rust_lines as rl
     return rl(s)
 
+RUST_WS_CHARS = "".join(map(chr, list(range(9, 14)) + [32, 0x85, 0xA0, 0x1680] + list(range(0x2000, 0x200B)) + [0x2028, 0x2029, 0x202F, 0x205F, 0x3000]))
+VCS_GROUP = re.compile(r" \[([^\] ]+)\]")
+def pvcs_parts(s):
+    """ParsedVcs::from_str: trim, take the first ` [subpath]` group out, split at the first ` -b `"""
+    s = s.strip(RUST_WS_CHARS)
+    m = VCS_GROUP.search(s)
+    sub = None
+    if m:
+        sub = m.group(1); s = s[:m.start()] + s[m.end():]
+    i = s.find(" -b ")
+    return (s[:i], s[i + 4:], sub) if i >= 0 else (s, None, sub)
+def pvcs_canon(s):
+    url, br, sub = pvcs_parts(s)
+    return url + (" -b " + br if br is not None else "") + (" [" + sub + "]" if sub is not None else "")
+def pvcs_second_group(s):
+    """the known class c20-vcs-second-group: after the first group is taken out another one is left"""
+    s = s.strip(RUST_WS_CHARS)
+    m = VCS_GROUP.search(s)
+    return bool(m and VCS_GROUP.search(s[:m.start()] + s[m.end():]))
+
 def ext_canon(name, s):
     js, _ = structs()
     if name in KEYWORDS:
@@ -112,6 +132,8 @@ def ext_canon(name, s):
         if parts[0] in ORIGIN_CATS:
             return ("ok", parts[0] + ", " + (parts[1] if len(parts) > 1 else ""))
         return ("ok", s)
+    if name == "ParsedVcs":
+        return ("ok", pvcs_canon(s))
     if name == "EnvMap":
         env = {}
         for line in rust_lines(s):
@@ -161,6 +183,10 @@ def table_for(kind, uses):
             c = ext_canon(ext_name(i), x)
             if c[0] == "unknown": continue
             ents[(i, x)] = c[1] if c[0] == "ok" else None
+            if ext_name(i) == "UrlList":
+                js, _ = structs()
+                for w in rust_split_ws(x):
+                    nxt.append((js["ext"]["Url"], w))
             if c[0] == "ok":
                 y = c[1]
                 for z in (y, ll_norm(y), y.rstrip("\n"), ll_norm(y.rstrip("\n")), "\n".join(rust_lines(y))):
@@ -210,11 +236,15 @@ def field_lines(rng, f, kind, want_ok=True):
         elif name == "TypesSet":
             cands = ["deb", "deb-src", "deb deb-src", "deb-src\ndeb", "deb deb"] if want_ok else ["rpm", "deb rpm"]
         elif name == "EnvMap":
-            cands = ["A=1", "LANG=C.UTF-8\nPATH=/usr/bin:/bin", "A=b=c", "DEB_BUILD_OPTIONS=\"parallel=4\"\nLC_ALL=\"C.UTF-8\"\nA=1", "A=1\nA=2"] if want_ok else ["novalue", "A=1\nB"]
+            cands = ["A=1", "LANG=C.UTF-8\nPATH=/usr/bin:/bin", "A=b=c", "DEB_BUILD_OPTIONS=\"parallel=4\"\nLC_ALL=\"C.UTF-8\"\nA=1", "A=1\nA=2",
+                     "B=2\nA=1", "=v\nA=", "a=1\nA=1", "#A=1\nB=2", "#A=1", "Z=1\nA=2\nM=3",
+                     "#A=1\n!B=2", "#A=1\n\"Q\"=2\nC=3"      # class c20-env-hash-line: a '#' line that is not the smallest
+                     ] if want_ok else ["novalue", "A=1\nB"]
         elif name == "UrlList":
             cands = ["https://deb.debian.org/debian", "http://a.example/x  http://b.example/", "https://example.com", "http://a.example/x\nhttp://b.example/"] if want_ok else ["nope", "http://a.example/ nope"]
         elif name == "Signature":
-            cands = ["/usr/share/keyrings/debian.gpg", gen_derive.KEYBLOCK, "a\nb"]
+            cands = ["/usr/share/keyrings/debian.gpg", gen_derive.KEYBLOCK, "a\nb", "#path", "a b",
+                     "#abc\ndef"]                      # class c20-signature-hash-block
         elif name in ("License",):
             cands = ["GPL-3+", "MIT", "GPL-3+\ntext line\nmore", "Apache-2.0\n.\nsecond"]
         elif name in ("Forwarded",):
@@ -222,7 +252,13 @@ def field_lines(rng, f, kind, want_ok=True):
         elif name == "AppliedUpstream":
             cands = ["commit:abc123", "2.0", "1.2, http://x/"]
         elif name == "Origin":
-            cands = ["upstream, https://x/1", "backport, commit:abc", "vendor", "commit:abc", "https://x", "other, x"]
+            cands = ["upstream, https://x/1", "backport, commit:abc", "vendor", "commit:abc", "https://x", "other, x", "vendor, ", "other", "Vendor, x", "upstream,x", "commit:"]
+        elif name == "ParsedVcs":
+            url = rng.choice(["https://x/y.git", "u", "https://salsa.debian.org/a/b"])
+            br = rng.choice(["", "", " -b main", " -b debian/sid", " -b "])
+            sub = rng.choice(["", "", " [sub]", " [a/b]"])
+            cands = [url + br + sub, url + sub + br, url + "  ", url + " [a]x", url + " [a b]", url + " []", "[a] " + url, url + br + " [a]\nmore", url + " [a\nb]",
+                     url + " [a] [b]", url + " [a]" + br + " [b]", url + br + " [b] [a] [c]"]     # the last three: class c20-vcs-second-group
         else:
             p = _pool(name)
             cands = [r for r, c in p.items() if (c is not None) == want_ok and lines_ok(r.split("\n")) and r != ""] or [r for r in p if lines_ok(r.split("\n"))]
